@@ -65,7 +65,7 @@ def run(v):
     trace = os.path.join(wd, "trace.ndjson")
     rc, out, err = common.run_hv(["c03", "--cases", cases, "--out", trace, "--seed", v.seed,
                                   "--random", 20000 if thorough else 3000, "--corpus", corp,
-                                  "--docs", 40000 if thorough else 5000])
+                                  "--docs", 40000 if thorough else 5000, "--family-sentences", 646 if thorough else 200])
     if rc != 0:
         raise common.ToolError("hv c03 failed: " + err[-2000:])
     v.cov["distinct_nontrivial"] = validate(v, trace, "t")
